@@ -23,8 +23,6 @@ def domain():
 
 
 def run(ck, prog):
-    from props.common import check_memos
-    ck.attempt(check_memos, ck, prog)
     ck.level = "proof"
     ck.extra["exhaustive"] = True
     ck.explanation = (
@@ -41,6 +39,28 @@ def run(ck, prog):
     construct = SEQ_PATH + ":Sequence.phasePlotRegion"
     ck.count("code paths", len(code))
     ck.count("spec rows", len(ref))
+    # (0) result tables in front of the region: does the key determine the region?  (exact, on the decision table just derived)
+    def decide(r):
+        from props.common import key_quantities
+        from lcsa.dt import determined_by
+        from lcsa.bind import inline_locals
+        st = r["site"]
+        if st.scope == "object" or not isinstance(st.value, ast.Call):
+            return None
+        g = st.mod.funcs.get((st.cls + "." if st.cls else "") + st.fnode.name)
+        callee = prog.resolve_call(g, st.value) if g is not None else None
+        if callee is None or callee.key not in (SEQ + ":Sequence.phasePlotRegion", "sequenceParameters.py:SequenceParameters.get_phasePlotRegion"):
+            return None
+        q = key_quantities(prog, g, inline_locals(g, st.key))
+        if q is None:
+            return None
+        if "*" in q:
+            return True
+        live = [(c, o) for c, o in code if not ((isinstance(o, tuple) and o and o[0] == "raise") or o is None)]
+        w = determined_by(live, q & {"npos", "nneg", "N"}, domain=domain(), positive=POS, int_atoms={"npos", "nneg", "N"})
+        return True if w is None else w
+    from props.common import check_memos
+    ck.attempt(check_memos, ck, prog, decide_lossy=decide)
     # (1) partition equivalence
     compare_tables(ck, "DT-POLY", construct, code, ref, "partition", where=f.loc(), domain=domain(), positive=POS,
                    note="1: FCR<0.25; 2: 0.25<=FCR<=0.35; 3: FCR>0.35 and |NCPR|<0.35; else 5 if n+>n-, 4 if n->n+")
@@ -132,52 +152,65 @@ def _is_int_as_float(n):
     return False
 
 
+def _float_calls(n):
+    """calls to the receiver's own fraction methods inside an expression"""
+    return [c for c in ast.walk(n) if isinstance(c, ast.Call) and isinstance(c.func, ast.Attribute) and c.func.attr in ("Fplus", "Fminus", "FCR", "NCPR", "FER")]
+
+
 def _single_rounding(ck, g):
-    """the pH=None return of g is `<integer expression> / <integer as float>`: one rounding"""
+    """the pH=None return of g is `<integer expression> / <integer as float>`: one rounding.
+    recognised single-division forms -> ok; arithmetic that combines already-rounded fractions -> violation; anything else -> undecided"""
     construct = g.mod.relpath + ":" + g.qual
     rets = [n for n in ast.walk(g.node) if isinstance(n, ast.Return) and n.value is not None]
-    # the branch used by phasePlotRegion is the one without pH
     cands = [r for r in rets if not any(isinstance(x, ast.Name) and x.id == "pH" for x in ast.walk(r.value))]
-    ok = bool(cands)
-    found = []
+    ck.shape(bool(cands), "%s: a return that does not involve pH" % g.qual, g.loc())
     for r in cands:
         v = r.value
-        good = isinstance(v, ast.BinOp) and isinstance(v.op, ast.Div) and _is_int_expr(v.left) \
-            and _is_int_as_float(v.right)
-        found.append(unparse(v))
-        ok &= good
-    ck.ob("ROUND-single", construct, ok, expected="one division of exact integer expressions", found=found,
-          slot="rounding", where=g.loc(),
-          note="two roundings (e.g. Fplus()+Fminus()) put 3/20+4/20 above 0.35 and move a region-2 sequence to 3")
+        while isinstance(v, ast.Call) and getattr(v.func, "id", None) == "float" and len(v.args) == 1:
+            v = v.args[0]
+
+        def intish(n):
+            return _is_int_expr(n) or _is_int_as_float(n)
+        single = isinstance(v, ast.BinOp) and isinstance(v.op, ast.Div) and intish(v.left) and intish(v.right)
+        combined = isinstance(v, ast.BinOp) and isinstance(v.op, (ast.Add, ast.Sub, ast.Mult)) and len(_float_calls(v)) >= 2
+        ck.shape(single or combined, "%s: return is neither one division of integer expressions nor a combination of rounded fractions" % g.qual, g.loc(r))
+        ck.ob("ROUND-single", construct, single, expected="one division of exact integer expressions", found=unparse(r.value), slot="rounding", where=g.loc(r),
+              note="two roundings (e.g. Fplus()+Fminus()) put 3/20+4/20 above 0.35 and move a region-2 sequence to 3")
 
 
 def _compare_discipline(ck, prog, f):
-    """in phasePlotRegion each comparison is value-vs-literal where value is a call result, a local bound to a
-    call result, or abs() of one - no arithmetic between the division and the comparison"""
+    """in phasePlotRegion each comparison is value-vs-literal where value is a call result, a local bound to a call result, or
+    abs() of one - no float arithmetic between the division and the comparison"""
     construct = f.mod.relpath + ":" + f.qual
     local_calls = {}
     for n in ast.walk(f.node):
         if isinstance(n, ast.Assign) and len(n.targets) == 1 and isinstance(n.targets[0], ast.Name):
-            local_calls[n.targets[0].id] = isinstance(n.value, ast.Call) and not n.value.args
+            local_calls[n.targets[0].id] = n.value
 
-    def plain(x):
+    def plain(x, depth=0):
         if isinstance(x, ast.Constant):
             return True
         if isinstance(x, ast.Name):
-            return local_calls.get(x.id, False)
+            v = local_calls.get(x.id)
+            return v is not None and depth < 3 and plain(v, depth + 1)
         if isinstance(x, ast.Call):
             nm = getattr(x.func, "id", None)
-            if nm == "abs" and len(x.args) == 1:
-                return plain(x.args[0])
+            if nm in ("abs", "float") and len(x.args) == 1:
+                return plain(x.args[0], depth)
             return isinstance(x.func, ast.Attribute) and not x.args
         return False
+
+    def arithmetic_on_fractions(x):
+        return isinstance(x, ast.BinOp) and len(_float_calls(x)) + sum(1 for n in ast.walk(x) if isinstance(n, ast.Name) and isinstance(local_calls.get(n.id), ast.Call)) >= 2
     n = 0
     for c in ast.walk(f.node):
         if isinstance(c, ast.Compare):
+            sides = [c.left] + list(c.comparators)
+            ok = all(plain(x) for x in sides)
+            bad = any(arithmetic_on_fractions(x) for x in sides)
+            ck.shape(ok or bad, "phasePlotRegion: comparison %s is neither value-vs-literal nor arithmetic on rounded fractions" % unparse(c), f.loc(c))
             n += 1
-            ok = plain(c.left) and all(plain(r) for r in c.comparators)
-            ck.ob("ROUND-compare", construct, ok, expected="<call result | abs(call result)> op <literal>",
-                  found=unparse(c), slot="cmp:" + unparse(c)[:40], where=f.loc(c))
+            ck.ob("ROUND-compare", construct, ok, expected="<call result | abs(call result)> op <literal>", found=unparse(c), slot="cmp:" + unparse(c)[:40], where=f.loc(c))
     ck.count("comparisons checked", n)
 
 
